@@ -22,6 +22,7 @@ OUT = os.environ.get("VERIF_OUT_DIR") or os.path.join(ROOT, "out")
 EVIDENCE = os.environ.get("VERIF_EVIDENCE_DIR") or os.path.join(ROOT, "evidence")
 MAX_SIGS_MINIMISED = 6
 WORKER_WATCHDOG_S = 600
+VIOLATION_STOP = 60
 
 
 def load_check(prop: str):
@@ -129,6 +130,10 @@ def batch(prop: str, tier: str, seed: int, runs: int, chunk: int, workers: int, 
                     for fut in done:
                         lo = running.pop(fut)
                         results[lo] = fut.result()
+                    if sum(r["viol_count"] for r in results.values()) >= VIOLATION_STOP and pending:
+                        # plenty of violations already: the verdict cannot change, stop early
+                        budget_hit = True
+                        pending.clear()
             except cf.process.BrokenProcessPool as ex_:
                 raise env.HarnessError(f"worker died: {ex_}") from ex_
     merged = {
